@@ -77,6 +77,17 @@ def og_pairs(prog: Program, own: Ownership, C: ClassInfo) -> Dict[str, Set[str]]
                         and n.value.value.id == ps[0]:
                     pairs.setdefault(tg[0], set()).add(n.value.attr)
                     pairs.setdefault(n.value.attr, set()).add(tg[0])
+        # separate assignments of one and the same value (same normal form: 'v = f(..); self.a = v; self.og_a = v')
+        fa = fa_of(prog, fi)
+        by_term: Dict[object, Set[str]] = {}
+        for n, var, val in fa.stores(f"{ps[0]}."):
+            if val is None or var.endswith("[]"):
+                continue
+            by_term.setdefault(fa.sym.term(val, n), set()).add(var.split(".", 1)[1])
+        for t, attrs in by_term.items():
+            if len(attrs) >= 2 and t is not None:
+                for a in attrs:
+                    pairs.setdefault(a, set()).update(x for x in attrs if x != a)
     return pairs
 
 
